@@ -518,6 +518,40 @@ def sysex_frame_overrides_fail():
     return None
 
 
+def matching_class_fail():
+    """freeze_message / thaw_message give a message of the MATCHING class, judged by the class of the message it is given -
+    also for an UnknownMetaMessage whose `type` is not the default string (the constructor takes `type=`, assignment is
+    unchecked), for subclasses of the message classes, and back."""
+    import mido
+    from mido.frozen import (FrozenMessage, FrozenMetaMessage, FrozenUnknownMetaMessage, freeze_message, thaw_message)
+    table = [(mido.Message('note_on', note=3, time=2), FrozenMessage, mido.Message),
+             (mido.MetaMessage('set_tempo', tempo=7, time=1), FrozenMetaMessage, mido.MetaMessage),
+             (mido.UnknownMetaMessage(0x60, [1, 2], time=3), FrozenUnknownMetaMessage, mido.UnknownMetaMessage),
+             (mido.UnknownMetaMessage(0x61, [1, 2], time=3, type='vendor_x'), FrozenUnknownMetaMessage, mido.UnknownMetaMessage),
+             (mido.UnknownMetaMessage(0x62, (), type='text'), FrozenUnknownMetaMessage, mido.UnknownMetaMessage)]
+    relabelled = mido.UnknownMetaMessage(0x63, [9])
+    relabelled.type = 'my_event'
+    table.append((relabelled, FrozenUnknownMetaMessage, mido.UnknownMetaMessage))
+    for m, fcls, tcls in table:
+        try:
+            f = freeze_message(m)
+            t = thaw_message(f)
+            t2 = thaw_message(m.copy())
+            if type(f) is not fcls:
+                return f'freeze_message({m!r}) [a {type(m).__name__} with type {m.type!r}] is a {type(f).__name__}, the matching class is {fcls.__name__}'
+            if type(t) is not tcls or type(t2) is not tcls:
+                return f'thaw_message of the frozen / of a plain {type(m).__name__} with type {m.type!r} is a {type(t).__name__} / {type(t2).__name__}'
+            if not (f == m and t == m and vars(t) == vars(m) and vars(f) == vars(m)):
+                return f'freeze / thaw of {m!r} changed its values: {vars(f)} / {vars(t)} instead of {vars(m)}'
+            if repr(t) != repr(m) or list(t.bytes()) != list(m.bytes()) or list(f.bytes()) != list(m.bytes()):
+                return f'the thawed / frozen copy of {m!r} prints or encodes differently: {t!r} {list(f.bytes())}'
+            hash(f)
+            repr(f)
+        except Exception as e:      # noqa: BLE001
+            return f'freeze / thaw / use of {type(m).__name__} with type {vars(m).get("type")!r} raised {type(e).__name__}: {e}'
+    return None
+
+
 def run(ck):
     ck.prepare_lean(extra_targets=['MidoProofs.Props.C15b'])
     ck.run_corpus(oracle)
@@ -552,6 +586,11 @@ def run(ck):
             impl.append(lines[2 * j + 1])
     ck.sample({'ops': repr(hs[3])})
     ck.compare('heap', reqs, impl, ck.driver.run(reqs))
+    f = matching_class_fail()
+    ck.evaluations += 1
+    ck.count('matching_class')
+    if f:
+        ck.oracle_fail({'matching_class': True}, f)
     f = sysex_frame_overrides_fail()
     ck.evaluations += 1
     ck.count('sysex_frame_overrides')
@@ -567,6 +606,8 @@ def oracle(case):
         return envprobe.oracle(case)
     if 'sysex_frame_overrides' in case:
         return sysex_frame_overrides_fail()
+    if 'matching_class' in case:
+        return matching_class_fail()
     return run_history(eval(case['ops']))[1]
 
 
